@@ -470,6 +470,14 @@ def main(tier, seed, replay, procs):
             by.setdefault(hist, {}).setdefault(c["build"], []).append(text)
     pairs = orders = 0
     for k, d in by.items():
+        if ("pure" in d) != ("compiled" in d):
+            # the same decision tree is run in both builds: a program that exists in one build only means that
+            # the other build stopped earlier (an exception) or went on where this one stopped
+            have = "pure" if "pure" in d else "compiled"
+            j = json.loads(d[have][0])
+            viol.append({"what": f"program {j['hist']} (outcome: {j['exc'] or 'ran to its end'}) exists only in the {have} build: the other build took another course on the same operations",
+                         "program": j["hist"], have: {"exc": j["exc"]}})
+            continue
         if "pure" in d and "compiled" in d:
             pairs += 1
             a, b = d["pure"][0], d["compiled"][0]
